@@ -33,6 +33,7 @@ import (
 	genesis "github.com/oasisprotocol/oasis-core/go/consensus/genesis"
 
 	"verifharness/internal/coqout"
+	"verifharness/internal/muxdrv"
 	"verifharness/internal/prng"
 )
 
@@ -42,18 +43,19 @@ type BCase struct {
 	Alter  string `json:"alter"`  // label of the alteration ("genuine" for none)
 	Header []byte `json:"header"` // protobuf of the light block's (verified) header
 
-	Block          *consensus.Block               `json:"block,omitempty"`
-	Results        *consensus.BlockResults        `json:"results,omitempty"`
-	ResultsHash    []byte                         `json:"results_hash"`
-	Txs            [][]byte                       `json:"txs,omitempty"`
-	Proof          []byte                         `json:"proof,omitempty"`
-	Tx             *transaction.SignedTransaction `json:"tx,omitempty"`
-	Validators     *consensus.Validators          `json:"validators,omitempty"`
-	Params         *consensus.Parameters          `json:"params,omitempty"`
-	StateParams    *genesis.Parameters            `json:"state_params,omitempty"` // nil: the state query fails
-	Chain          [][]byte                       `json:"chain,omitempty"`  // core-*: headers of the preloaded trusted light blocks, ascending
-	Height         int64                          `json:"height,omitempty"` // core-*: requested height
-	Honest         *BCase                         `json:"honest,omitempty"`       // the unaltered response (for the oracle)
+	Block       *consensus.Block               `json:"block,omitempty"`
+	Results     *consensus.BlockResults        `json:"results,omitempty"`
+	ResultsHash []byte                         `json:"results_hash"`
+	Txs         [][]byte                       `json:"txs,omitempty"`
+	Proof       []byte                         `json:"proof,omitempty"`
+	Tx          *transaction.SignedTransaction `json:"tx,omitempty"`
+	Validators  *consensus.Validators          `json:"validators,omitempty"`
+	Params      *consensus.Parameters          `json:"params,omitempty"`
+	StateParams *genesis.Parameters            `json:"state_params,omitempty"` // nil: the state query fails
+	Chain       [][]byte                       `json:"chain,omitempty"`        // core-*: headers of the preloaded trusted light blocks, ascending
+	Height      int64                          `json:"height,omitempty"`       // core-*/api-*: requested height
+	ChainVals   [][]byte                       `json:"chain_vals,omitempty"`   // api-*: protobuf validator set of every preloaded light block
+	Honest      *BCase                         `json:"honest,omitempty"`       // the unaltered response (for the oracle)
 }
 
 func lightBlockOf(header []byte) *cmttypes.LightBlock {
@@ -84,9 +86,9 @@ type blockBound struct {
 	header           []byte
 	sigs             [][]byte
 	// not bound
-	size                uint64
-	cHeight, cRound     int64
-	cBlockID            []byte
+	size            uint64
+	cHeight, cRound int64
+	cBlockID        []byte
 }
 
 func absBlock(blk *consensus.Block) blockBound {
@@ -363,7 +365,10 @@ func bindVerdict(kind string, err error) string {
 	case has("malformed block metadata transaction"):
 		return "BMetaTxMalformed"
 	}
-	if kind == "params" {
+	if has("failed to verify light block") || has("failed to resolve height") {
+		return "BOther"
+	}
+	if kind == "params" || kind == "api-params" {
 		return "BParamsInvalid" // ValidateBasic's own messages
 	}
 	return "BOther"
@@ -374,7 +379,7 @@ type fakeQF struct {
 }
 
 func (f *fakeQF) QueryAt(context.Context, int64) (cmtconsensus.Query, error) { return f, nil }
-func (f *fakeQF) ChainContext(context.Context) (string, error)              { return "verif", nil }
+func (f *fakeQF) ChainContext(context.Context) (string, error)               { return "verif", nil }
 func (f *fakeQF) ConsensusParameters(context.Context) (*genesis.Parameters, error) {
 	if f.p == nil {
 		return nil, errors.New("state not available")
@@ -383,12 +388,12 @@ func (f *fakeQF) ConsensusParameters(context.Context) (*genesis.Parameters, erro
 }
 
 type bresult struct {
-	t          *tb
-	coq        string
-	verdict    string
-	violation  string
-	free       []string // unbound fields that differ in an accepted response
-	panicked   string
+	t         *tb
+	coq       string
+	verdict   string
+	violation string
+	free      []string // unbound fields that differ in an accepted response
+	panicked  string
 }
 
 // runB executes one case on the real code.
@@ -518,13 +523,15 @@ func runB(c BCase) (res bresult) {
 		}
 	case "core-results", "core-txresults", "core-stateroot":
 		q, out, accept = runCore(&res, c, lb, t, r)
+	case "api-block", "api-txs", "api-txproofs", "api-params", "api-validators", "api-txproof":
+		q, accept = runAPI(&res, c, lb, t, r)
 	default:
 		panic("unknown kind " + c.Kind)
 	}
 	if out == "" {
 		out = "(SrErr " + res.verdict + ")"
 	}
-	if c.Alter == "genuine" && !accept && c.Kind != "stateroot" && c.Kind != "core-stateroot" {
+	if c.Alter == "genuine" && !accept && c.Kind != "stateroot" && c.Kind != "core-stateroot" && res.violation == "" {
 		fmt.Fprintln(os.Stderr, "honest rejected:", c.Kind, res.verdict)
 		bad("harness error: the honest response is rejected: " + res.verdict)
 	}
@@ -547,6 +554,7 @@ type tuple struct {
 	stateParams *genesis.Parameters
 	sigTxs      []*transaction.SignedTransaction
 	height      int64
+	valsProto   []byte // protobuf of the validator set of this height
 	root        []byte // state root carried by the block's metadata transaction
 }
 
@@ -623,7 +631,7 @@ func mkTupleAt(r *prng.R, name string, height int64, appHash, lastResultsHash []
 	}
 	blk := &cmttypes.Block{Header: hdr, Data: data, LastCommit: commit}
 	var cblk *consensus.Block
-	if len(appHash) == 32 { // api.NewBlock panics on any other length
+	if len(appHash) == 32 || len(appHash) == 0 { // api.NewBlock panics on any other length
 		cblk = must(cmtapi.NewBlock(blk))
 	}
 
@@ -644,7 +652,7 @@ func mkTupleAt(r *prng.R, name string, height int64, appHash, lastResultsHash []
 	sp := &genesis.Parameters{TimeoutCommit: time.Second, MaxTxSize: 32768, MaxBlockSize: uint64(cp.Block.MaxBytes), MaxBlockGas: 1000, MaxEvidenceSize: 51200, MinGasPrice: uint64(r.Intn(5))}
 	pbp := cp.ToProto()
 	params := &consensus.Parameters{Height: height, Parameters: *sp, Meta: must(pbp.Marshal())}
-	return &tuple{name: name, height: height, root: root[:], header: must(hdr.ToProto().Marshal()), nextHeader: must(next.ToProto().Marshal()),
+	return &tuple{name: name, height: height, valsProto: must(must(vals.ToProto()).Marshal()), root: root[:], header: must(hdr.ToProto().Marshal()), nextHeader: must(next.ToProto().Marshal()),
 		block: cblk, txs: raw, results: results, resultsHash: resultsHash,
 		validators: must(light.EncodeValidators(nextVals, height+1)), params: params, stateParams: sp, sigTxs: sigTxs}
 }
@@ -948,11 +956,15 @@ func genBCases(r *prng.R, tp *tuple) []BCase {
 			modr("result-dropped", func(m *cmtapi.BlockResultsMeta) { m.TxsResults = m.TxsResults[:n-1] })
 			modr("result-duplicated", func(m *cmtapi.BlockResultsMeta) { m.TxsResults = append(m.TxsResults, m.TxsResults[0]) })
 			if n >= 2 {
-				modr("results-swapped", func(m *cmtapi.BlockResultsMeta) { m.TxsResults[0], m.TxsResults[n-1] = m.TxsResults[n-1], m.TxsResults[0] })
+				modr("results-swapped", func(m *cmtapi.BlockResultsMeta) {
+					m.TxsResults[0], m.TxsResults[n-1] = m.TxsResults[n-1], m.TxsResults[0]
+				})
 			}
 			modr("results-emptied", func(m *cmtapi.BlockResultsMeta) { m.TxsResults = nil })
 		}
-		modr("begin-block-events-changed", func(m *cmtapi.BlockResultsMeta) { m.BeginBlockEvents = append(m.BeginBlockEvents, abci.Event{Type: "forged"}) })
+		modr("begin-block-events-changed", func(m *cmtapi.BlockResultsMeta) {
+			m.BeginBlockEvents = append(m.BeginBlockEvents, abci.Event{Type: "forged"})
+		})
 		modr("end-block-events-dropped", func(m *cmtapi.BlockResultsMeta) { m.EndBlockEvents = nil })
 	}
 
@@ -1000,9 +1012,16 @@ func genBCases(r *prng.R, tp *tuple) []BCase {
 			p.Validators[j] = &v
 		})
 		if n >= 2 {
-			modv("validators-swapped", func(p *cmtproto.ValidatorSet) { p.Validators[0], p.Validators[n-1] = p.Validators[n-1], p.Validators[0] })
+			modv("validators-swapped", func(p *cmtproto.ValidatorSet) {
+				p.Validators[0], p.Validators[n-1] = p.Validators[n-1], p.Validators[0]
+			})
 		}
-		modv("validator-priority+1", func(p *cmtproto.ValidatorSet) { j := r.Intn(n); v := *p.Validators[j]; v.ProposerPriority++; p.Validators[j] = &v })
+		modv("validator-priority+1", func(p *cmtproto.ValidatorSet) {
+			j := r.Intn(n)
+			v := *p.Validators[j]
+			v.ProposerPriority++
+			p.Validators[j] = &v
+		})
 		modv("proposer-changed", func(p *cmtproto.ValidatorSet) { p.Proposer = p.Validators[n-1] })
 	}
 
@@ -1057,7 +1076,23 @@ var ackFree = map[string]bool{
 }
 
 func mainBind(seed uint64, rounds int, out, replay string) {
-	signature.SetChainContext("verif stateless harness")
+	// tuples recorded from the real multiplexer (this also fixes the process-wide
+	// signature chain context to the generated genesis document's)
+	var muxTps []*tuple
+	var muxRep *muxdrv.Replica
+	var muxErr error
+	if replay == "" {
+		muxTps, _, muxRep, muxErr = muxChain(seed, 4)
+		if muxRep != nil {
+			defer muxRep.Close()
+		}
+	}
+	if muxTps == nil {
+		func() {
+			defer func() { _ = recover() }() // already set by a generated genesis
+			signature.SetChainContext("verif stateless harness")
+		}()
+	}
 	w := newCaseWriter(out, coqHeader, "run_bcase", "sr_result_eqb", 40)
 	sum := coqout.NewSummary("consistent (block, light block, transactions, results, next validators, parameters) tuples: the mainnet sample of the package's testdata plus -rounds constructed ones (heights 1, 2, 7, 25300000, 2^31+5, 2^63-2; 1-8 transactions, 1-5 commit signatures, 1-5 validators) and every field-level alteration listed in the histogram, through verifyBlock / verifyBlockResults / verifyTransactions / verifyTransactionProof / verifyNextValidators / verifyParameters / stateRootFromBlockTxs; non-trivial = altered response; distinct = distinct case descriptions")
 	var cases []BCase
@@ -1077,10 +1112,29 @@ func mainBind(seed uint64, rounds int, out, replay string) {
 			cases = append(cases, genCoreCases(r.Fork(), i)...)
 			sum.Count("tuples", "chains")
 		}
+		if muxErr != nil {
+			fmt.Fprintln(os.Stderr, "mux chain not available:", muxErr)
+			sum.Extra["mux_chain_error"] = muxErr.Error()
+		} else {
+			for _, tp := range muxTps {
+				cases = append(cases, genBCases(r.Fork(), tp)...)
+				sum.Count("tuples", "mux-executed")
+			}
+			cases = append(cases, chainCases(r.Fork(), muxTps)...)
+			sum.Count("tuples", "mux-chains")
+			muxStateReads(sum, muxTps, muxRep)
+		}
+		// an honest initial block whose header has an EMPTY AppHash (api.NewBlock maps it to
+		// the empty-hash constant, verifyBlock compares with the raw AppHash): documented, not alarmed
+		tpE := mkTupleAt(r.Fork(), "empty-apphash", 1, nil, cmttypes.NewResults(nil).Hash())
+		hbE := &BCase{Kind: "block", Alter: "honest-response-with-empty-apphash", Header: tpE.header, Block: tpE.block}
+		hbE.Honest = &BCase{Block: tpE.block}
+		resE := runB(*hbE)
+		sum.Extra["honest_block_with_empty_apphash_verdict"] = resE.verdict
+		cases = append(cases, *hbE)
 	}
 	seen := map[string]bool{}
 	freeSeen := map[string]bool{}
-	txResultsPanicSeen := false
 	for _, c := range cases {
 		res := runB(c)
 		key, _ := json.Marshal(c)
@@ -1108,15 +1162,6 @@ func mainBind(seed uint64, rounds int, out, replay string) {
 				if r2 := runB(small); r2.panicked != "" {
 					c, res = small, r2
 				}
-			}
-			if c.Kind == "core-txresults" && strings.Contains(res.panicked, "index out of range") && strings.Contains(res.panicked, "full/common.go") {
-				if !txResultsPanicSeen {
-					txResultsPanicSeen = true
-					sum.Findings = append(sum.Findings, coqout.Finding{Key: "C19:GetTransactionsWithResults-panics-on-more-results-than-transactions",
-						What: "Core.GetTransactionsWithResults does not reject but PANICS at the latest trusted height (where block results are not verified) when the provider returns more transaction results than the block has transactions: full.TransactionResultsFromCometBFT indexes txs[idx] by the result index: " + res.panicked,
-						Replay: map[string]any{"case": c}})
-				}
-				continue
 			}
 			sum.Violations = append(sum.Violations, map[string]any{"what": "implementation panicked: " + res.panicked, "case": c})
 			continue
